@@ -293,16 +293,7 @@ static void part_search(int maxk)
     const int NN = 7;
     const int NM = (int)g_meta.size();
     uint64_t tix = 0;
-    for(int k = 0; k <= maxk; ++k) {
-        uint64_t total = 1; for(int j = 0; j < k; ++j) total *= NN;
-        for(uint64_t idx = 0; idx < total; ++idx, ++g_top, ++tix) {
-            if(!vp::mine(g_top)) continue;
-            std::string tprefix = "C|" + std::to_string(k) + "|" + std::to_string(idx) + "|";
-            if(vp::replaying() && vp::ctx().replay.compare(0, tprefix.size(), tprefix) != 0) continue;
-            if(vp::deadline_passed()) { vp::cap("deadline: path_search stopped at table " + std::to_string(idx) + " of " + std::to_string(total) + " with " + std::to_string(k) + " entries"); return; }
-            // the table under test: names by index digits, metadata rotating through all blocks
-            std::vector<Child> table(k); { uint64_t r = idx; for(int j = k - 1; j >= 0; --j) { table[j].name = names[r % NN]; r /= NN; } }
-            for(int j = 0; j < k; ++j) table[j].meta = (int)((tix * 5 + j * 3) % NM);
+    auto do_table = [&](const std::vector<Child> &table, const std::string &tprefix, int k) {
             std::string tdesc = "{"; for(auto &c : table) tdesc += std::string(tdesc.size() > 1 ? " " : "") + c.name + "#m" + std::to_string(c.meta); tdesc += "}";
             Tree tree;
             std::vector<Port> tp; for(auto &c : table) tp.push_back(Port{c.name.c_str(), g_meta[c.meta].ptr, nullptr, nop_cb});
@@ -416,8 +407,37 @@ static void part_search(int maxk)
                     free(msg);
                 }
             }
+    };
+    for(int k = 0; k <= maxk; ++k) {
+        uint64_t total = 1; for(int j = 0; j < k; ++j) total *= NN;
+        for(uint64_t idx = 0; idx < total; ++idx, ++g_top, ++tix) {
+            if(!vp::mine(g_top)) continue;
+            std::string tprefix = "C|" + std::to_string(k) + "|" + std::to_string(idx) + "|";
+            if(vp::replaying() && vp::ctx().replay.compare(0, tprefix.size(), tprefix) != 0) continue;
+            if(vp::deadline_passed()) { vp::cap("deadline: path_search stopped at table " + std::to_string(idx) + " of " + std::to_string(total) + " with " + std::to_string(k) + " entries"); return; }
+            // the table under test: names by index digits, metadata rotating through all blocks
+            std::vector<Child> table(k); { uint64_t r = idx; for(int j = k - 1; j >= 0; --j) { table[j].name = names[r % NN]; r /= NN; } }
+            for(int j = 0; j < k; ++j) table[j].meta = (int)((tix * 5 + j * 3) % NM);
+            do_table(table, tprefix, k);
         }
     }
+    // large tables: 15..40 children in an order that is neither sorted nor reverse sorted, sub-trees "gN/" together with entries below
+    // them ("gN/x") and leaves sharing prefixes
+    for(int n : {15, 16, 17, 18, 20, 24, 33, 40}) for(int variant = 0; variant < 3; ++variant, ++g_top, ++tix) {
+        if(!vp::mine(g_top)) continue;
+        std::string tprefix = "C|big" + std::to_string(n) + "|" + std::to_string(variant) + "|";
+        if(vp::replaying() && vp::ctx().replay.compare(0, tprefix.size(), tprefix) != 0) continue;
+        static std::vector<std::string> keep; keep.clear();
+        std::vector<Child> table(n);
+        for(int j = 0; j < n; ++j) {
+            int r = (j * 7 + 3 * variant) % n;                // a permutation of 0..n-1 when gcd(7, n) = 1, else repeats (duplicates are allowed)
+            std::string nm = variant == 0 ? "m" + std::to_string(r) : (r % 3 == 0 ? "g" + std::to_string(r % 5) + "/" : r % 3 == 1 ? "g" + std::to_string(r % 5) + "/x" + std::to_string(r) : "h" + std::to_string(r));
+            if(variant == 2 && r % 4 == 0) nm = "g" + std::to_string(r % 5);
+            table[j].name = nm; table[j].meta = (int)((tix * 5 + j * 3) % NM);
+        }
+        do_table(table, tprefix, n);
+    }
+    vp::bound("path_search_large_tables", "tables of 15,16,17,18,20,24,33,40 children x 3 naming schemes (distinct leaves; sub-trees with entries below them and leaves; the same with leaf/sub-tree name clashes), same queries as the small tables");
 }
 
 int main(int argc, char **argv)
